@@ -42,7 +42,9 @@ def one(d: str) -> dict:
             try:
                 with contextlib.redirect_stdout(io.StringIO()):
                     code, ctx = run_property(p, str(scratch), "quick", 0, write_evidence=False, quiet=True)
-                out[p] = [f"{f.rule} {f.construct}" for f in ctx.findings]
+                from hv.core import load_known
+                known = {(k["rule"], k["construct"]) for k in load_known() if k.get("status") == "open"}
+                out[p] = [f"{f.rule} {f.construct}" for f in ctx.findings if (f.rule, f.construct) not in known]
             except AnalysisError as e:
                 out[p] = [f"ANALYSIS-ERROR {str(e)[:160]}"]
             except Exception as e:  # noqa: BLE001
